@@ -357,6 +357,8 @@ def sequences_family(gen, n):
         lambda: {"t": Anon([("Aa", T("int"), ""), ("Bb", S, "")]), "v": {"Aa": "1", "Bb": hx(b"alpha")}},
         lambda: {"t": Ptr(Reg("Inner")), "v": {"v": {"X": "9", "Y": hx(b"beta")}}},
         lambda: {"t": T("float64"), "v": "0x400921fb54442d18"},
+        lambda: {"t": S, "v": hx(gen.rng.choice([b"x", "中".encode(), b"y"]))},       # 11: one UTF-16 unit
+        lambda: {"t": S, "v": ""},                                                       # 12: empty
     ]
     fixed = [
         [("encode", 1), ("reset",), ("encode", 1)],                       # same struct type again after Reset
@@ -364,6 +366,12 @@ def sequences_family(gen, n):
         [("encode", 0), ("reset",), ("encode", 0)],
         [("encode", 8), ("encode", 8), ("reset",), ("encode", 8)],
         [("encode", 2), ("reset",), ("encode", 1), ("reset",), ("encode", 2), ("encode", 1)],
+        # the Write entry point: the value is written out (never as a back-reference) but registered
+        [("write", 11), ("encode", 3), ("encode", 3)],                    # Write("x") then a repeated list of strings
+        [("write", 12), ("encode", 0), ("encode", 3), ("write", 3)],      # Write("") ...
+        [("write", 0), ("write", 0), ("encode", 0), ("encode", 3)],
+        [("write", 9), ("encode", 9), ("write", 1), ("encode", 1), ("write", 3), ("encode", 3)],
+        [("write", 11), ("write", 12), ("write", 1), ("reset",), ("write", 1), ("encode", 1)],
     ]
     scripts = list(fixed)
     for _ in range(n):
@@ -373,7 +381,7 @@ def sequences_family(gen, n):
             if gen.rng.random() < 0.25 and sc:
                 sc.append(("reset",))
             else:
-                sc.append(("encode", gen.rng.randrange(len(pool))))
+                sc.append(("write" if gen.rng.random() < 0.3 else "encode", gen.rng.randrange(len(pool))))
         scripts.append(sc)
     for sc in scripts:
         seq = []
@@ -382,14 +390,14 @@ def sequences_family(gen, n):
                 seq.append({"op": "reset"})
             else:
                 x = pool[st[1]]()
-                seq.append({"op": "encode", "t": x["t"], "v": x["v"]})
+                seq.append({"op": st[0], "t": x["t"], "v": x["v"]})
         cases.append({"seq": seq, "t": T("string"), "v": "", "tag": "seq:encoder"})
         # the same script through NewEncoder(w), with ResetBuffer between some values: what reaches w must be
         # the same stream (ResetBuffer is invisible to the model: it is not a step)
         wseq = []
         for st in seq:
             wseq.append(st)
-            if st["op"] == "encode" and gen.rng.random() < 0.5:
+            if st["op"] in ("encode", "write") and gen.rng.random() < 0.5:
                 wseq.append({"op": "resetbuffer"})
         cases.append({"seq": wseq, "writer": True, "t": T("string"), "v": "", "tag": "seqw:writer"})
     # decoding over a destination that already holds a graph (a caller reusing its variable): chains, rings and
